@@ -269,7 +269,9 @@ func (c c09Case) decide(r c09Run, clean scanOut) (reached bool, othersExpected b
 			// hit took a whole region containing the file away from one of them, a missing call
 			// cannot be charged to this fault
 			if g != f {
-				if reg, trav, gi := faultRegion(c.Tree, g); (trav || gi || g.Site == "stat") && inRegion(f.Path, reg) {
+				// (an open or stat fault on a symlink that leads to a directory takes the walk of
+				// that directory away as well, when the symlink is a listed path)
+				if reg, trav, gi := faultRegion(c.Tree, g); (trav || gi || g.Site == "stat" || lstatKind(c.Tree, g.Path) == memfs.KSymlink) && inRegion(f.Path, reg) {
 					statOnSame = true
 				}
 			}
